@@ -573,6 +573,31 @@ def rule_solver_takes_over(chk, prog):
             r.bad(cls, fs[0].where() if fs else "", "no constructor of %s (or of its base) clears Constraint::active for all constraints" % cls)
 
 
+def rule_add_constraint(chk, prog):
+    r = chk.rule("ADD-CONSTRAINT-QUEUED", "IncSolver::addConstraint (both solver copies): on every path the new constraint is counted (++m), made "
+                 "inactive, linked into its variables' in / out lists and appended to the `inactive` work list -- whatever its current slack "
+                 "and wherever its variables are: a constraint that is not on the work list is never examined again, although a later split "
+                 "of the block it lies in can make it violated", floor=2)
+    for ns in ("vpsc", "Avoid"):
+        fn = prog.fn(ns + "::IncSolver::addConstraint")
+        g = CFG(fn)
+        c = fn.params[0]["name"]
+        r.count()
+        bad = None
+        need = {
+            "appended to inactive": [x for x in calls(fn) if str(x.get("cname", "")).endswith("::push_back") and norm(call_object(x)) == "inactive" and norm(call_args(x)[0]) == c],
+            "linked into left->out": [x for x in calls(fn) if str(x.get("cname", "")).endswith("::push_back") and norm(call_object(x)) == c + ".left.out"],
+            "linked into right->in": [x for x in calls(fn) if str(x.get("cname", "")).endswith("::push_back") and norm(call_object(x)) == c + ".right.in"],
+        }
+        for what, sites in need.items():
+            if not sites or g.exit_reachable_avoiding([x["id"] for x in sites]) is not None:
+                bad = bad or "the constraint is not %s on every path" % what
+        st = [node for lhs, node, op in writes(fn) if norm(lhs) == c + ".active" and literal_value(node["ch"][1]) == "false"]
+        if not st or g.exit_reachable_avoiding([x["id"] for x in st]) is not None:
+            bad = bad or "the constraint is not marked inactive on every path"
+        (r.bad if bad else r.ok)(ns + "::IncSolver::addConstraint", fn.where(), bad or "")
+
+
 def run(chk):
     prog = chk.load()
     from . import c02 as _c02
@@ -585,6 +610,7 @@ def run(chk):
     chk.guard(rule_scaling_flag, chk, prog)
     chk.guard(rule_who_writes, chk, prog)
     chk.guard(rule_solver_takes_over, chk, prog)
+    chk.guard(rule_add_constraint, chk, prog)
     r = chk.rule("SIBLING", "every function of libavoid's solver copy (libavoid/vpsc.{h,cpp}) is structurally identical to its libvpsc "
                  "counterpart after alpha-renaming, dropping assertions/casts and unifying the heap ADT (tables/siblings.json lists the "
                  "deliberate differences)", floor=60)
